@@ -22,7 +22,7 @@ BLOCK = 20
 STREAM_ORDER = ['ops', 'guards', 'chart', 'cfg']
 RULE = ('twin interpreters on the same chart and the same seeded script, ignore_contract=False (every condition true) vs True; lock-step '
         'equality of macro steps, configurations, contexts, sent events and the meta-event stream seen by an attached listener; the '
-        'ignoring twin is run a second time with every condition false and must behave identically with zero condition evaluations; in half of the runs both twins use an evaluator that returns lists (as the Evaluator interface documents) instead of lazy iterators; in a third of the runs every twin also has a property statechart with contracts bound the deprecated way, as an interpreter built with ignore_contract=True, whose conditions must never be evaluated; when conditions use after() / idle(), half of the states also carry a postcondition and half of the transitions an invariant that ask them about a state that has just been left. '
+        'ignoring twin is run a second time with every condition false and must behave identically with zero condition evaluations; in half of the runs both twins use an evaluator that returns lists (as the Evaluator interface documents) instead of lazy iterators; in a third of the runs every twin also has a property statechart with contracts bound the deprecated way, as an interpreter built with ignore_contract=True, whose conditions must never be evaluated; in half of the runs the context holds an object that can be copied but not deep-copied; an unexpected error of the checking twin ends the history and is judged against the ignoring twin; when conditions use after() / idle(), half of the states also carry a postcondition and half of the transitions an invariant that ask them about a state that has just been left. '
         'One run in four uses the shipped elevator_contract.yaml / microwave_with_contracts.yaml driven by seeded domain events and clock '
         'advances (comparison covers the steps before a legitimately failing condition). non-trivial = a twin run with >= 1 evaluated '
         'condition and >= 2 macro steps; distinct = distinct (chart, script)')
@@ -52,6 +52,15 @@ class Rec:
 
     def __call__(self, me):
         self.events.append((me.name, sorted((k, repr(v)) for k, v in me.data.items())))
+
+
+class Holder:
+    """a context value that can be copied but not deep-copied (it holds a lock, as an object wrapping a resource does): __old__ is
+    documented as a shallow copy of the context, so taking the snapshot must not need more than that"""
+
+    def __init__(self):
+        import threading
+        self.lock = threading.Lock()
 
 
 class Hits:
@@ -135,6 +144,9 @@ def run_generated(ch, tier):
     ra = Rec(a.it)
     watched = ch.s('cfg').flag(1, 3)
     hits = [watch(a.it)] if watched else []
+    holder = ch.s('cfg').flag(1, 2)
+    if holder:
+        a.it.context['resource'] = Holder()
     recs = []
     erred = False
     for r in standard_ops(a, ch, tier, delays=True, hi=25 if tier == 'quick' else 60):
@@ -142,13 +154,12 @@ def run_generated(ch, tier):
         if not r.init:
             legal_or_abandon(sp, r.pre, 'C09')
         if r.exc is not None and not (r.sel is not None and r.sel.err and type(r.exc).__name__ == r.sel.err):
-            if isinstance(r.exc, sx.CodeEvaluationError):
-                # generated code does not raise by itself: the history ends here and the ignoring twin decides whether the
-                # error belongs to the checking (it is then a difference between the twins) or to the code that both run
-                recs.append((sig(r.ms), sorted(r.post), r.ctx_after, r.exc_name(), len(ra.events)))
-                erred = True
-                break
-            raise Abandon('other: unexpected %s in the checking twin' % r.exc_name())
+            # generated code does not raise by itself and every generated condition holds: the history ends here and the
+            # ignoring twin decides whether the error belongs to the checking (it is then a difference between the twins)
+            # or to something both twins do
+            recs.append((sig(r.ms), sorted(r.post), r.ctx_after, r.exc_name(), len(ra.events)))
+            erred = True
+            break
         recs.append((sig(r.ms), sorted(r.post), r.ctx_after, r.exc_name(), len(ra.events)))
     script = a.script
     for variant in ('conditions-true', 'conditions-false'):
@@ -156,6 +167,8 @@ def run_generated(ch, tier):
         rb = Rec(b.it)
         if watched:
             hits.append(watch(b.it))
+        if holder:
+            b.it.context['resource'] = Holder()
         if variant == 'conditions-false':
             b.P.cond_truth = {j: False for j in range(sp.nconds)}
             b.P.default = True
@@ -186,7 +199,7 @@ def run_generated(ch, tier):
         return res.fail('evaluated-while-ignoring', 'a bound property statechart whose interpreter was built with ignore_contract=True evaluated '
                         '%s contract conditions' % [h.n for h in hits], chart=sp.describe())
     if erred:
-        raise Abandon('other: CodeEvaluationError in both twins')
+        raise Abandon('other: the same unexpected error in both twins')
     res.stats['twin_runs_with_a_contract_ignoring_property_interpreter_bound'] += int(watched)
     res.stats['generated_twin_runs'] += 1
     res.stats['twin_runs_with_skewing_clock'] += int(skew)
